@@ -153,6 +153,9 @@ MonUpdate ==
     /\ Check("C09", "FirstMatch", (Ev.frun /\ Ev.fired # <<>>) \/ FirstMatchStep(stored, la))
     /\ Check("C12", "Isolation", IsolationStep(stored, stored', la))
     /\ Check("C12", "OtherLogsCheckpointNeverFiledHere", la.req.auth \in {"peercp", "wrongorigin"} => la.v # "Accept" /\ stored' = stored)
+    \* C12: an id that is not a configured id is not configured, however close its spelling (letter case, white space) comes to one: the log's
+    \* own checkpoint submitted under it is refused outright, nothing is filed under a second name
+    /\ Check("C12", "NoSecondSpellingOfALogsIdentity", ~known => la.v = "UnknownLog" /\ stored' = stored /\ Ev.unchanged)
     /\ Check("C16", "LogList", SeqToSet(Ev.loglist) = {m \in Logs : stored'[m] # None})
     /\ Check("C20", "Counters", CountersStep(ctr, ctr', la))
     /\ (Ev.frun => MonFault(la, st, known, honest))
@@ -172,12 +175,15 @@ MonGet ==
     \* C07: a read never leaves a transaction or the connection behind, and only fails when a failure was injected
     /\ (Ev.frun => /\ Check("C07", "ReadLeavesNothingOpen", Ev.opentx = 0 /\ Ev.inuse = 0)
                     /\ Check("C07", "ReadFailsOnlyOnInjectedFailure", Ev.failed => Ev.fired # <<>>))
+    \* C16: a read that could not be served says so - it is never answered "there is no checkpoint" for a log that has one
+    /\ Check("C16", "FailedReadIsNotNoCheckpoint",
+             Ev.frun /\ Ev.fired # <<>> /\ Ev.log \in Logs /\ stored[Ev.log] # None => Ev.status # 404 /\ Ev.client # "notexist")
     /\ Check("C16", "ReadBytes",
-             \/ Ev.failed
-             \/ /\ Ev.exact
-             /\ LET has == Ev.log \in Logs /\ stored[Ev.log] # None
-                IN /\ (has => Ev.client = "bytes" /\ Ev.status \in {0, 200})
-                   /\ (~has => Ev.client = "notexist" /\ Ev.status \in {0, 404}))
+             \* (a read the service could not serve - and said so - has no bytes to compare; FailedReadIsNotNoCheckpoint judges what it answered)
+             Ev.failed \/
+             (Ev.exact /\ LET has == Ev.log \in Logs /\ stored[Ev.log] # None
+                         IN /\ (has => Ev.client = "bytes" /\ Ev.status \in {0, 200})
+                            /\ (~has => Ev.client = "notexist" /\ Ev.status \in {0, 404})))
 
 MonGetLogs ==
     Check("C16", "LogListExact", Ev.ok /\ ReadExactStep(stored, stored', last'))
